@@ -299,7 +299,8 @@ func (g *Graph) Conds(pred func(ast.Expr) bool) []CondSite {
 // disconnects the target.
 type Guard struct {
 	Cond     ast.Expr
-	Polarity bool // true: the true edge must be taken
+	Polarity bool     // true: the true edge must be taken
+	Site     ast.Expr // the whole branch condition (a node of the CFG) this atom comes from; nil outside Guards
 }
 
 func (g *Graph) Guards(target Point) []Guard {
@@ -328,7 +329,10 @@ func (g *Graph) Guards(target Point) []Guard {
 			w.Run(g.Entry())
 			if !reach {
 				// vetoing edge `pol` disconnects target => edge pol is mandatory
-				out = append(out, Atoms(c, pol == 0)...)
+				for _, a := range Atoms(c, pol == 0) {
+					a.Site = c
+					out = append(out, a)
+				}
 			}
 		}
 	}
@@ -355,7 +359,7 @@ func AtomsRaw(e ast.Expr, pol bool) []Guard {
 			return append(AtomsRaw(x.X, pol), AtomsRaw(x.Y, pol)...)
 		}
 	}
-	return []Guard{{e, pol}}
+	return []Guard{{Cond: e, Polarity: pol}}
 }
 
 func Atoms(e ast.Expr, pol bool) []Guard {
@@ -373,9 +377,9 @@ func Atoms(e ast.Expr, pol bool) []Guard {
 		// `if a != b {..} else {HERE}` and `if a == b {HERE}` give the same atom.
 		if !pol {
 			if op, ok := negCmp[x.Op]; ok {
-				return []Guard{{&ast.BinaryExpr{X: x.X, OpPos: x.OpPos, Op: op, Y: x.Y}, true}}
+				return []Guard{{Cond: &ast.BinaryExpr{X: x.X, OpPos: x.OpPos, Op: op, Y: x.Y}, Polarity: true}}
 			}
 		}
 	}
-	return []Guard{{e, pol}}
+	return []Guard{{Cond: e, Polarity: pol}}
 }
